@@ -2,7 +2,7 @@
 import concurrent.futures as cf, json, os
 from vlib.native import run_native
 
-BOUNDS = {'quick': (320, 40), 'thorough': (4800, 40)}
+BOUNDS = {'quick': (320, 40), 'thorough': (16000, 50)}
 
 
 def _chunk(args):
